@@ -40,6 +40,7 @@ inductive V where
   | tup3 (a b c : V)
   | nil                               -- the empty list / tuple
   | cons (hd tl : V)                  -- a non-empty list / tuple of any length (`tl` is `nil` or `cons`)
+  | dict (entries : V)                -- a dict: list of `tup2 key value` in insertion order, keys distinct
   deriving Repr, DecidableEq, Inhabited
 
 /-- outcome of one pass through a translated loop body: an early `return v`, or the next loop state -/
@@ -66,6 +67,7 @@ def pyEq : V → V → Bool
   | .tup3 a b c, .tup3 a' b' c' => pyEq a a' && pyEq b b' && pyEq c c'
   | .nil, .nil => true
   | .cons a b, .cons a' b' => pyEq a a' && pyEq b b'
+  | .dict a, .dict b => pyEq a b      -- (order-sensitive: enough for the fragment, which never compares dicts)
   | _, _ => false
 
 def eq (a b : V) : M V := pure (.bool (pyEq a b))
@@ -83,6 +85,8 @@ def truthy : V → M Bool
   | .tup3 .. => pure true
   | .nil => pure false
   | .cons .. => pure true
+  | .dict .nil => pure false
+  | .dict _ => pure true
 
 def not_ (a : V) : M V := do pure (.bool (!(← truthy a)))
 
@@ -238,8 +242,28 @@ def setNat : V → Nat → V → M V
   | .cons x xs, k + 1, v => do pure (.cons x (← setNat xs k v))
   | _, _, _ => throw .indexError
 
-/-- `x[i]` for a list and an int index (negative indices count from the end) -/
-def getItem (x i : V) : M V := do
+/-! ### dicts (association lists; keys compared with `pyEq`) -/
+
+def dictGet? : V → V → Option V
+  | .cons (.tup2 k v) rest, key => if pyEq k key then some v else dictGet? rest key
+  | _, _ => Option.none
+
+def dictSet : V → V → V → V
+  | .cons (.tup2 k v) rest, key, val =>
+      if pyEq k key then .cons (.tup2 k val) rest else .cons (.tup2 k v) (dictSet rest key val)
+  | _, key, val => .cons (.tup2 key val) .nil
+
+/-- `d.setdefault(key, default)`: the value (existing or default) and the possibly extended dict -/
+def dictSetdefault : V → V → V → M (V × V)
+  | .dict es, key, dflt =>
+      match dictGet? es key with
+      | some v => pure (v, .dict es)
+      | Option.none => pure (dflt, .dict (dictSet es key dflt))
+  | _, _, _ => throw .typeError
+
+/-- `x[i]` for a list and an int index (negative indices count from the end), `d[key]` for a dict
+    (`KeyError` is reported as `indexError`) -/
+def getItemSeq (x i : V) : M V := do
   match i, ← len x with
   | .int k, .int n =>
       let x ← asList x
@@ -247,13 +271,24 @@ def getItem (x i : V) : M V := do
       else if 0 ≤ k + n then getNat x (k + n).toNat else throw .indexError
   | _, _ => throw .typeError
 
-/-- the list `x` with element `i` replaced (`x[i] = v` under value semantics) -/
-def setItem (x i v : V) : M V := do
+def getItem : V → V → M V
+  | .dict es, i =>
+      match dictGet? es i with
+      | some v => pure v
+      | Option.none => throw .indexError
+  | x, i => getItemSeq x i
+
+/-- the list `x` with element `i` replaced (`x[i] = v` under value semantics); `d[key] = v` for a dict -/
+def setItemSeq (x i v : V) : M V := do
   match i, ← len x with
   | .int k, .int n =>
       if 0 ≤ k then setNat x k.toNat v
       else if 0 ≤ k + n then setNat x (k + n).toNat v else throw .indexError
   | _, _ => throw .typeError
+
+def setItem : V → V → V → M V
+  | .dict es, i, v => pure (.dict (dictSet es i v))
+  | x, i, v => setItemSeq x i v
 
 /-- `x.append(v)` (returns the new list) -/
 def append : V → V → M V
